@@ -47,6 +47,12 @@ VACUITY = {'explicit_valid': 10000, 'explicit_invalid_rejected': 200, 'execution
            'full_group_reached': 3}
 
 
+def coverage_extra(tier, stats, outcomes):
+    return {'exhaustive_note': 'explicit arguments and random outcomes for N,M<=3: complete; the 5-variable formula: every execution with at most 2 answers off the default schedule',
+            'deviation_bounded_cases': int(stats.get('cases_deviation_bounded', 0)),
+            'executions_on_implementation': int(stats.get('executions', 0))}
+
+
 def preload():
     setup_paths()
     import cnfgen  # noqa
